@@ -448,6 +448,9 @@ pub fn chunk_at(chunks: &[Chunk], pos: usize) -> String {
 
 pub struct GroupWalk {
     pub fails: Vec<Fail>,
+    /// bytes as written, except that an MLIQ size that is 8 short has been corrected
+    pub effective: Vec<u8>,
+    pub mliq_short: bool,
     /// header length under which the sub-chunks tile (68 = format, 36 = what the writer emits)
     pub header_len: Option<usize>,
     pub subchunks: Vec<Chunk>,
@@ -508,6 +511,8 @@ pub fn ref_payloads(c: &GroupCase) -> Vec<(&'static str, &'static str, Vec<u8>)>
 pub fn judge_group(b: &[u8], c: &GroupCase) -> GroupWalk {
     let mut w = GroupWalk {
         fails: vec![],
+        effective: b.to_vec(),
+        mliq_short: false,
         header_len: None,
         subchunks: vec![],
         mogp_data: 0,
@@ -546,32 +551,96 @@ pub fn judge_group(b: &[u8], c: &GroupCase) -> GroupWalk {
     debug_assert_eq!(mogp.data + mogp.size, b.len());
     w.mogp_data = mogp.data;
     let end = mogp.data + mogp.size;
-    let sub = if mogp.size >= 68 { tiles_known(b, mogp.data + 68, end) } else { None };
-    match sub {
-        Some(ch) => {
-            w.header_len = Some(68);
-            w.subchunks = ch;
-        }
-        None => {
-            if let Some(ch) = if mogp.size >= 36 { tiles_known(b, mogp.data + 36, end) } else { None } {
-                w.header_len = Some(36);
-                w.subchunks = ch;
-                w.fails.push(Fail::new(
-                    "group-mogp-header-written-with-36-bytes-instead-of-68",
-                    format!(
-                        "MOGP ({} bytes): sub-chunks tile only after a 36-byte header (nameOffset, flags, box, 2×u16); the format and the crate's own group parser use the 68-byte header",
-                        mogp.size
-                    ),
-                ));
-            } else {
-                w.fails.push(Fail::new(
-                    "group-mogp-subchunks-do-not-tile",
-                    format!("MOGP ({} bytes): sub-chunks tile neither after a 68-byte nor after a 36-byte header", mogp.size),
-                ));
-                return w;
-            }
+    // which sub-chunks the input calls for
+    let mut expect: Vec<&str> = vec![];
+    for (name, present) in [
+        ("MOVT", !c.vertices.is_empty()),
+        ("MOVI", !c.indices.is_empty()),
+        ("MONR", !c.normals.is_empty()),
+        ("MOTV", !c.tex_coords.is_empty()),
+        ("MOCV", c.colors.as_ref().is_some_and(|x| !x.is_empty())),
+        ("MOBA", !c.batches.is_empty()),
+        ("MOBN", c.bsp.as_ref().is_some_and(|x| !x.is_empty())),
+        ("MLIQ", c.liquid.is_some()),
+        ("MODR", c.doodad_refs.as_ref().is_some_and(|x| !x.is_empty())),
+    ] {
+        if present {
+            expect.push(name);
         }
     }
+    expect.sort();
+    // candidates: documented 68-byte header or the 36-byte one, MLIQ size as declared or +8
+    let mut cands: Vec<(usize, bool, Vec<u8>, Vec<Chunk>)> = vec![];
+    for hl in [68usize, 36] {
+        if mogp.size < hl {
+            continue;
+        }
+        if let Some(ch) = tiles_known(b, mogp.data + hl, end) {
+            cands.push((hl, false, b.to_vec(), ch));
+            continue;
+        }
+        // MLIQ declared 8 bytes short: find it by walking as far as the stream is consistent
+        let mut p = mogp.data + hl;
+        while end - p >= 8 {
+            let size = u32at(b, p + 4) as usize;
+            let name = magic_name(&b[p..p + 4]);
+            if !GROUP_SUBCHUNKS.contains(&name.as_str()) || size > end - p - 8 {
+                break;
+            }
+            if name == "MLIQ" && size + 8 <= end - p - 8 {
+                let mut patched = b.to_vec();
+                patched[p + 4..p + 8].copy_from_slice(&((size + 8) as u32).to_le_bytes());
+                if let Some(ch) = tiles_known(&patched, mogp.data + hl, end) {
+                    cands.push((hl, true, patched, ch));
+                }
+                break;
+            }
+            p += 8 + size;
+        }
+    }
+    let set_of = |ch: &[Chunk]| {
+        let mut v: Vec<String> = ch.iter().map(|c| c.name.clone()).collect();
+        v.sort();
+        v
+    };
+    let pick = cands
+        .iter()
+        .position(|x| set_of(&x.3) == expect)
+        .or(if cands.is_empty() { None } else { Some(0) });
+    let Some(pick) = pick else {
+        w.fails.push(Fail::new(
+            "group-mogp-subchunks-do-not-tile",
+            format!("MOGP ({} bytes): sub-chunks tile neither after a 68-byte nor after a 36-byte header", mogp.size),
+        ));
+        return w;
+    };
+    let (hl, mliq_short, eff, ch) = cands.swap_remove(pick);
+    if set_of(&ch) != expect {
+        w.fails.push(Fail::new(
+            "group-subchunk-set-differs-from-populated-lists",
+            format!("sub-chunks {:?}, populated lists call for {:?}", set_of(&ch), expect),
+        ));
+    }
+    w.header_len = Some(hl);
+    w.subchunks = ch;
+    w.mliq_short = mliq_short;
+    if hl == 36 {
+        w.fails.push(Fail::new(
+            "group-mogp-header-written-with-36-bytes-instead-of-68",
+            format!(
+                "MOGP ({} bytes): sub-chunks tile only after a 36-byte header (nameOffset, flags, box, 2×u16); the format and the crate's own group parser use the 68-byte header",
+                mogp.size
+            ),
+        ));
+    }
+    if mliq_short {
+        w.fails.push(Fail::new(
+            "group-mliq-size-field-8-bytes-short-of-the-written-data",
+            "MLIQ declares 32 header bytes but 40 are written (type, flags, 2 dims, 6 floats): the sub-chunks after it no longer tile".to_string(),
+        ));
+    }
+    w.effective = eff;
+    let b = &w.effective.clone()[..];
     // header content where both layouts agree on meaning: with the 68-byte layout the fields are
     // groupName, descriptiveName, flags, box; the 36-byte layout is judged by the parser clause
     if w.header_len == Some(68) {
@@ -649,10 +718,11 @@ pub fn judge_group(b: &[u8], c: &GroupCase) -> GroupWalk {
 
 /// rebuild the file with a 68-byte MOGP header (fields of the 36-byte header moved to their
 /// documented slots) so that sub-chunk content can still be compared through `parse_wmo`
-pub fn repair_group(b: &[u8], w: &GroupWalk) -> Option<Vec<u8>> {
+pub fn repair_group(w: &GroupWalk) -> Option<Vec<u8>> {
     if w.header_len != Some(36) {
         return None;
     }
+    let b = &w.effective[..];
     let d = w.mogp_data;
     let old_size = u32at(b, d - 4);
     let mut out = b[..d - 4].to_vec();
